@@ -99,6 +99,41 @@ class HistGen:
     def set_opts(self, who, **opts):
         self.ops.append(dict({"op": "opts", "who": who}, **opts))
 
+    def round_explicit(self, committer, n_adds=0, remove_names=(), path_required=True, tree_ext=True, encrypt=False, observe="all"):
+        """One epoch change with everything chosen by the caller: the committer, the members removed
+        by value and the number of outsiders added by value, in one commit."""
+        self.set_opts(committer, path_required=path_required, tree_ext=tree_ext, single_welcome=True, encrypt_controls=encrypt)
+        adds, kps = [], []
+        for _ in range(n_adds):
+            cand = [o for o in self.outsiders() if o not in adds]
+            if not cand:
+                break
+            j = cand[0]
+            kp = self.fresh("kp")
+            self.ops.append({"op": "kp", "who": j, "id": kp})
+            kps.append(kp)
+            adds.append(j)
+        cid = self.fresh("c")
+        self.ops.append({"op": "commit", "who": committer, "id": cid, "add": kps, "remove_names": list(remove_names)})
+        for m in self.in_group:
+            if m != committer:
+                self.ops.append({"op": "deliver", "to": m, "msg": cid})
+        self.ops.append({"op": "apply", "who": committer})
+        for j in adds:
+            jo = {"op": "join", "who": j, "welcome_any": cid}
+            if not tree_ext:
+                jo["tree"] = cid + ".tree"
+            self.ops.append(jo)
+        for t in remove_names:
+            self.in_group.remove(t)
+            self.removed.append(t)
+        self.in_group += adds
+        self.epoch += 1
+        self.commit_ids.append(cid)
+        if observe:
+            self.ops.append({"op": "observe", "who": committer, "observe": observe})
+        return {"commit": cid, "committer": committer, "adds": adds, "removes": list(remove_names)}
+
     def round(self, n_props=None, allow=("add", "remove", "update"), by_value_adds=None, by_value_removes=None,
               committer=None, echo=None, observe="all", app=True, path_required=None, tree_ext=None,
               single_welcome=None, encrypt=None, join_tree_oob=None):
